@@ -19,7 +19,7 @@ ASSUME = [
 
 def main():
     c = Check("C01")
-    c.prove(gen=["ps", "stmts"])
+    c.prove(gen=["ps", "stmts"], modules=["TSSVerif.Props.C01", "TSSVerif.Props.C01Run"])
     c.correspond("fullstack")
     c.correspond("dkgstep")
     return c.finish(
